@@ -59,4 +59,21 @@ PROPS = {
         "assumptions": TRUST,
         "stages": [{"driver": "stream", "stage": "", "flavour": "asan-full"}],
     },
+    "C03": {
+        "level": "exploration",
+        "assumptions": TRUST,
+        "stages": [{"driver": "ser", "stage": "dec", "flavour": "asan"}, {"driver": "ser", "stage": "api", "flavour": "asan"}],
+    },
+    "C07": {
+        "level": "exploration",
+        "assumptions": TRUST + ["quick tier caps the n-loop at items of serialized size <= 300 bytes (thorough: 5000)"],
+        "stages": [{"driver": "ser", "stage": "dec", "flavour": "asan", "budget": {"quick": 3000, "thorough": 30000}},
+                   {"driver": "ser", "stage": "api", "flavour": "asan", "budget": {"quick": 3000, "thorough": 30000}},
+                   {"driver": "ser", "stage": "enc", "flavour": "asan-full"}],
+    },
+    "C11": {
+        "level": "exploration",
+        "assumptions": TRUST,
+        "stages": [{"driver": "ser", "stage": "dec", "flavour": "asan"}, {"driver": "ser", "stage": "api", "flavour": "asan"}],
+    },
 }
